@@ -284,8 +284,8 @@ func (e *c26End) Close() error {
 	return nil
 }
 
-func (e *c26End) LocalAddr() net.Addr                { return c26Addr{} }
-func (e *c26End) RemoteAddr() net.Addr               { return c26Addr{} }
+func (e *c26End) LocalAddr() net.Addr              { return c26Addr{} }
+func (e *c26End) RemoteAddr() net.Addr             { return c26Addr{} }
 func (e *c26End) SetDeadline(time.Time) error      { return nil }
 func (e *c26End) SetReadDeadline(time.Time) error  { return nil }
 func (e *c26End) SetWriteDeadline(time.Time) error { return nil }
@@ -710,10 +710,10 @@ func c26Judge(w *c26World) error {
 
 func c26Calls(cs ...c26CallSpec) []c26CallSpec { return cs }
 
-func c26Bg(tag string) c26CallSpec              { return c26CallSpec{Tag: tag, Ctx: "bg"} }
-func c26Cancel(tag string, at int) c26CallSpec  { return c26CallSpec{Tag: tag, Ctx: "cancel", At: at} }
-func c26Timeout(tag string, at int) c26CallSpec { return c26CallSpec{Tag: tag, Ctx: "timeout", At: at} }
-func c26Pre(tag string) c26CallSpec             { return c26CallSpec{Tag: tag, Ctx: "pre"} }
+func c26Bg(tag string) c26CallSpec                    { return c26CallSpec{Tag: tag, Ctx: "bg"} }
+func c26Cancel(tag string, at int) c26CallSpec        { return c26CallSpec{Tag: tag, Ctx: "cancel", At: at} }
+func c26Timeout(tag string, at int) c26CallSpec       { return c26CallSpec{Tag: tag, Ctx: "timeout", At: at} }
+func c26Pre(tag string) c26CallSpec                   { return c26CallSpec{Tag: tag, Ctx: "pre"} }
 func c26After(c c26CallSpec, prev string) c26CallSpec { c.After = prev; return c }
 
 func c26Specs(r *ev.R) []c26Spec {
@@ -764,6 +764,8 @@ func c26Specs(r *ev.R) []c26Spec {
 				Peer: map[string]string{"a1": "late", "b1": "dup", "c1": "never"}, CloseAt: 2, Bound: 3},
 			c26Spec{Name: "rpc-3callers-garbage", Callers: [][]c26CallSpec{c26Calls(c26Bg("a1")), c26Calls(c26Bg("b1")), c26Calls(c26Pre("c1"), c26Bg("c2"))},
 				Peer: map[string]string{"b1": "garbage", "c2": "empty"}, Order: "lifo", Bound: 3},
+			c26Spec{Name: "rpc-3callers-answer-at-cancel-other-caller", Callers: [][]c26CallSpec{c26Calls(c26Cancel("a1", 1)), c26Calls(c26After(c26Bg("b1"), "a1")), c26Calls(c26Timeout("c1", 2), c26Bg("c2"))},
+				Peer: map[string]string{"a1": "atcancel", "c1": "atcancel", "b1": "err"}, Bound: 3},
 			// every atomic operation is a scheduling point too
 			c26Spec{Name: "rpc-2calls-ok-lifo-stray-atomics", Callers: two, Order: "lifo", Stray: true, Atomics: true, Bound: 3},
 			c26Spec{Name: "rpc-cancel-late-answer-next-call-atomics", Callers: cancelLate, Peer: map[string]string{"a1": "late"}, Atomics: true, Bound: 3},
